@@ -221,9 +221,17 @@ pub fn c08_other_fields(acc: &mut Acc) -> u64 {
     for v in ["v1.2.3", "V2", "v", "vv1", "1.0.0", "1.0.0+build+5", "1.0.0-SNAPSHOT", "==1.0", "latest", "!azure", "g/!azure/x", "@scope", "%40scope", "~1", "*", "1.0.0.RELEASE", "2024.01", "r1", "go1.22", "+incompatible", "v2.0.0+incompatible", "x86_64", "A B", "a+b", "A-B_c.D"] {
         values.push(v.to_owned());
     }
+    // values from the specification's own vocabulary: the default registries of the known types, common
+    // VCS and download URL shapes (as qualifier values, where the crate has typed accessors for them)
+    for v in crate::pools::SPEC_URLS {
+        values.push(v.to_string());
+    }
+    for v in ["jar", "pom", "war", "sources", "javadoc", "ruby", "java", "x86_64", "linux", "noarch", "any", "default", "none", "null", "true", "0"] {
+        values.push(v.to_owned());
+    }
     let mut n = 0u64;
     for ty in R::KNOWN_TYPES {
-        for field in [0usize, 2, 3, 4] {
+        for field in [0usize, 2, 3, 4, 5, 6, 7, 8, 9, 10, 11] {
             for v in &values {
                 if v.is_empty() {
                     continue;
@@ -232,7 +240,14 @@ pub fn c08_other_fields(acc: &mut Acc) -> u64 {
                 acc.evals += 1;
                 let case = json!({"engine": "c08-other-fields", "ty": ty, "field": field, "value": v});
                 let r = guarded(|| {
-                    let mut spec = spec_with(ty, field, v);
+                    // fields 5..7: the value under a well-known qualifier key
+                    let mut spec = if field >= 5 {
+                        let mut sp = spec_with(ty, 1, "n");
+                        sp.quals = vec![(["repository_url", "download_url", "vcs_url", "type", "classifier", "platform", "arch"][field - 5].to_owned(), v.clone())];
+                        sp
+                    } else {
+                        spec_with(ty, field, v)
+                    };
                     if ty == "maven" && field == 0 && !v.split('/').any(|x| !x.is_empty()) {
                         return;
                     }
@@ -354,6 +369,19 @@ pub fn c08_sweep(tier: Tier) -> (Acc, Value) {
     });
     let long_cases = long.evals;
     total.merge(long);
+    // names that look like a requirement or coordinate of some ecosystem (extras, constraints, markers,
+    // scopes): for every type they are names, kept exactly (after the type's own rule)
+    let req = ["a", "B", "1", "[", "]", "(", ")", ",", ";", "=", ">", "<", "~", "^", "*", " ", "\"", "@", ":", "!"];
+    let rn = if tier == Tier::Quick { 4 } else { 5 };
+    let reqs = for_all_short(&req, rn, |s, acc| {
+        if s.is_empty() {
+            return;
+        }
+        for ty in R::KNOWN_TYPES {
+            c08_name_case(ty, s, acc);
+        }
+    });
+    total.merge(reqs);
     // maven: every namespace spelling without a non-empty segment is refused by builder and parser
     let maven = for_all_short(&["/", "a", "%2F", "."], 5, |s, acc| c08_maven_case(s, acc));
     let maven_cases = maven.evals;
@@ -710,6 +738,16 @@ pub fn c18_sweep(tier: Tier) -> (Acc, Value) {
             acc.sample(|| json!({"combined": s}));
         }
     });
+    // the requirement / coordinate syntaxes of the ecosystems (extras, version constraints, markers,
+    // scopes, coordinates): all of it is plain text in a combined name
+    let req = ["a", "1", "[", "]", "(", ")", ",", ";", "=", ">", "<", "~", "^", "*", " ", "\"", "@", ":", "/", "!"];
+    let rn = if tier == Tier::Quick { 4 } else { 5 };
+    let reqs = for_all_short(&req, rn, |s, acc| {
+        for ty in R::KNOWN_TYPES {
+            c18_forward(ty, s, acc);
+        }
+    });
+    total.merge(reqs);
     let short_n = total.evals;
     // every scalar in a combined name
     let sc = for_all_scalars(|c, acc| {
@@ -773,9 +811,9 @@ pub fn c13_flavor_case(spec: &BuildSpec, mon: u32, acc: &mut Acc) {
     let case = json!({"engine": if rebuild { "flavor-monitors" } else { "c13-flavors" }, "mon": mon, "spec": spec.to_json()});
     let r = guarded(|| {
         let mut first: Option<(&str, FlavorOutcome)> = None;
-        for fl in ["String", "CowOwned", "CowBorrowed", "SmallString"] {
+        for fl in ["String", "CowOwned", "CowBorrowed", "SmallString", "SmallStringHeap"] {
             #[cfg(not(feature = "smart"))]
-            if fl == "SmallString" {
+            if fl.starts_with("SmallString") {
                 continue;
             }
             let mut g = GrabOutcome(None, if rebuild { Some(case.clone()) } else { None }, mon);
